@@ -34,6 +34,8 @@ SHAPES = {
     # larger motifs, used by the catalogue only
     "5": (5, lambda v: [(v[a], v[b]) for a in range(5) for b in range(a + 1, 5)]),
     "5c": (5, lambda v: [(v[i], v[(i + 1) % 5]) for i in range(5)]),
+    # "house": a 4-cycle with a triangle on one side (vertices of three different roles, 6 edges)
+    "house": (5, lambda v: [(v[0], v[1]), (v[1], v[2]), (v[2], v[3]), (v[0], v[3]), (v[0], v[4]), (v[1], v[4])]),
     "bar": (6, lambda v: [(v[0], v[1]), (v[0], v[2]), (v[1], v[2]), (v[3], v[4]), (v[3], v[5]), (v[4], v[5]),
                           (v[2], v[3])]),
 }
@@ -87,6 +89,7 @@ def catalogue():
         ("K5+triangle+edges", 7, mk([("5", (0, 1, 2, 3, 4)), ("3", (4, 5, 6)), ("2", (0, 5)), ("2", (1, 6))])),
         ("5-cycle+triangle+edges", 7, mk([("5c", (0, 1, 2, 3, 4)), ("3", (4, 5, 6)), ("2", (0, 5)), ("2", (2, 6))])),
         ("barbell+edges", 8, mk([("bar", (0, 1, 2, 3, 4, 5)), ("2", (0, 6)), ("2", (6, 7)), ("2", (7, 5))])),
+        ("house+triangle+edges", 7, mk([("house", (0, 1, 2, 3, 4)), ("3", (4, 5, 6)), ("2", (2, 5)), ("2", (3, 6))])),
         # 12 motifs: ids reach two digits (see ID_MAPS: also non-contiguous ids such as 1, 6, 11, 16)
         ("K6-minus-matching-by-2-cliques", 6, mk([("2", p) for p in itertools.combinations(range(6), 2)
                                                    if p not in ((0, 1), (2, 3), (4, 5))])),
@@ -304,7 +307,8 @@ def mp_state(mp):
 def run_history(res, tier):
     from gcmpy.message_passing.message_passing import MessagePassing
     verts = list(range(6))
-    phis = [0.0, 0.3, 0.7, 1.0] if tier == "quick" else [0.0, 0.3, 0.5, 0.7, 1.0]
+    # 0.704 and 0.7004 fall into the same 0.01 / 0.001 bucket as 0.7 (answers must not be shared between them)
+    phis = [0.0, 0.3, 0.7, 0.704, 0.7004, 1.0] if tier == "quick" else [0.0, 0.3, 0.5, 0.7, 0.704, 0.7004, 1.0]
     maxdepth = 3 if tier == "quick" else 4
     for iters in (3, 25):
         G = build_graph(verts, HIST_NET)
